@@ -32,6 +32,7 @@ LINES = {
     'farl': lambda: GeoLineString([C(30, 30), C(31, 35)]),
     'sub': lambda: GeoLineString([C(2, 3), C(3, 1)]),
     'infar': lambda: GeoLineString([C(21, 21), C(22, 22)]),
+    'out': lambda: GeoLineString([C(5, 2), C(15, 2)]),          # starts inside `big`, leaves it
 }
 POINTS = {
     'p_in': lambda: GeoPoint(C(2, 2)), 'p_hole': lambda: GeoPoint(C(5, 5)), 'p_far': lambda: GeoPoint(C(21, 21)),
@@ -93,6 +94,11 @@ def main():
                 perms = rng.sample(perms, 8)
             for pm in perms:
                 multis.append((kind, pm))
+    # always present (every tier, every seed): a part that STARTS inside a single receiver and crosses its boundary, at
+    # every position - the parts of a multi-shape are judged one by one, each by all of its edges
+    fixed_multis = [('poly', ('small', 'cross')), ('poly', ('cross', 'small')), ('poly', ('small', 'inhole', 'cross')),
+                    ('poly', ('small', 'cross', 'tri')), ('line', ('in', 'out')), ('line', ('out', 'in')), ('line', ('in', 'sub', 'out'))]
+    multis = fixed_multis + [m for m in multis if m not in fixed_multis]
     queries = [Coordinate(x, y) for x, y in ((2, 2), (5, 5), (21, 21.25), (40, 40), (9, 9), (2, 3), (30, 30))]
 
     def mk(kind, pm, **kw):
